@@ -53,6 +53,7 @@ type rec struct {
 	keepPts bool
 	hookPts [][]float64
 	tail    []string // the last raw callback arguments (for violation reports)
+	xtype   string   // storage type of the start vector
 }
 
 func (r *rec) note(kind string, p []float64, extra interface{}) {
